@@ -19,6 +19,7 @@ enum Kind {
     ReorgedBranch,  // two once-active blocks (VALID_SCRIPTS, data+undo) forking below the tip, ending below it
     InvalidatedBranch, // once fully validated, then marked invalid (invalidateblock): FAILED_VALID + FAILED_CHILD descendants, reaching ABOVE the tip
     UnconnectedAbove,  // downloaded but never connected blocks (VALID_TRANSACTIONS|HAVE_DATA) building on the tip, above it
+    KeyTwin,           // never-connected record whose key agrees with the active block's hash in its first / last bytes (5 variants by height and `later`)
 }
 
 #[derive(Clone, Copy, Debug, PartialEq, Eq, Hash, PartialOrd, Ord)]
@@ -100,6 +101,11 @@ pub fn run() -> Report {
     }
     singles.push(Extra { kind: Kind::InvalidatedBranch, height: 3, later: true });
     singles.push(Extra { kind: Kind::UnconnectedAbove, height: 5, later: true });
+    for h in [1u64, 2, 3, 4] {
+        for later in [false, true] {
+            singles.push(Extra { kind: Kind::KeyTwin, height: h, later });
+        }
+    }
     let mut sets: Vec<Vec<Extra>> = vec![vec![]];
     for s in &singles {
         sets.push(vec![*s]);
@@ -147,7 +153,7 @@ pub fn run() -> Report {
             }
         }
     }
-    rep.rule = "active chain of 5 blocks plus every set of <= 2 (thorough: <= 3) extra index records drawn from {header-only (VALID_TREE) at/below/beyond the tip, never-connected stale sibling with data, failed block with data, FAILED_CHILD header, once-active reorged-out 2-block branch, invalidated (FAILED_VALID/FAILED_CHILD, formerly fully validated) 3-block branch reaching above the tip, never-connected blocks with data above the tip}, each competitor at an occupied height in both LevelDB key orders (nonce ground); competitor data stored in a file of its own or inside the active chain's file right after its parent; index histories {log only, header-only-then-upgraded across a compaction, table only}; --end at and just above each competitor's height under 10 HashMap iteration orders (seeds of the deterministic getrandom stream); csvdump and unspentcsvdump; non-trivial = distinct case with >= 1 extra record".into();
+    rep.rule = "active chain of 5 blocks plus every set of <= 2 (thorough: <= 3) extra index records drawn from {header-only (VALID_TREE) at/below/beyond the tip, never-connected stale sibling with data, failed block with data, FAILED_CHILD header, once-active reorged-out 2-block branch, invalidated (FAILED_VALID/FAILED_CHILD, formerly fully validated) 3-block branch reaching above the tip, never-connected blocks with data above the tip, never-connected records whose key shares the first 8 / last 8 / all but one byte with the active block's hash or begins with 8 zero bytes}, each competitor at an occupied height in both LevelDB key orders (nonce ground); competitor data stored in a file of its own or inside the active chain's file right after its parent; index histories {log only, header-only-then-upgraded across a compaction, table only}; --end at and just above each competitor's height under 10 HashMap iteration orders (seeds of the deterministic getrandom stream); csvdump and unspentcsvdump; non-trivial = distinct case with >= 1 extra record".into();
     rep.bound = json!({"active_chain": 5, "extras_per_index": if thorough { "<=3" } else { "<=2" }, "singles": singles.len(), "sets": sets.len(), "cases": cases.len()});
     rep.not_covered = vec!["two fully validated competing tips of equal height (not decidable from the index alone)".into(), "adversarial header bytes in header-only records".into()];
     let root = refmodel::world::scratch_root();
@@ -164,12 +170,13 @@ pub fn run() -> Report {
                     let raw = b.ser();
                     let file = if c.tip_file != 0 && h >= 3 { 2 } else { 0 };
                     let pos = world.place_raw(file, &raw, raw.len() as u32);
-                    recs.push((IndexRec { hash: b.hash(), client_version: 270000, height: h as u64, status: if h == 0 { VALID_SCRIPTS | HAVE_DATA } else { ACTIVE }, ntx: b.txs.len() as u64, file, data_pos: pos, undo_pos: 8 + h as u64, header: b.header.ser() }, true));
+                    recs.push((IndexRec { hash: b.hash(), client_version: 270000, height: h as u64, status: if h == 0 { VALID_SCRIPTS | HAVE_DATA } else { ACTIVE | if h % 2 == 1 { refmodel::world::OPT_WITNESS } else { 0x100 } }, ntx: b.txs.len() as u64, file, data_pos: pos, undo_pos: 8 + h as u64, header: b.header.ser() }, true));
                 }
             }
             let comp_file: u64 = if c.same_file { 0 } else { 1 };
             // competitor blocks are collected first and written height by height
             let mut pending: Vec<(u64, Block, u64)> = Vec::new(); // (height, block, status)
+            let mut twins: Vec<(IndexRec, u8)> = Vec::new();
             let mut foreign_txids: Vec<String> = Vec::new();
             for (k, x) in c.extras.iter().enumerate() {
                 let tag = (k as u32 + 1) * 16 + x.height as u32;
@@ -199,6 +206,10 @@ pub fn run() -> Report {
                         add(&mut world, &b1, x.height, VALID_TRANSACTIONS | HAVE_DATA);
                         add(&mut world, &b2, x.height + 1, VALID_TRANSACTIONS | HAVE_DATA);
                     }
+                    Kind::KeyTwin => {
+                        let b = &chain.blocks[x.height as usize];
+                        twins.push((IndexRec { hash: b.hash(), client_version: 270000, height: x.height, status: ACTIVE, ntx: 1, file: 0, data_pos: 0, undo_pos: 0, header: b.header.ser() }, (x.height * 2 + x.later as u64) as u8));
+                    }
                     Kind::ReorgedBranch => {
                         let b1 = competitor(&chain.blocks, x.height, tag, x.later, None);
                         let b2 = competitor(&chain.blocks, x.height + 1, tag + 1, x.later, Some(b1.hash()));
@@ -223,7 +234,7 @@ pub fn run() -> Report {
                     let b = &chain.blocks[h as usize];
                     let raw = b.ser();
                     let pos = world.place_raw(0, &raw, raw.len() as u32);
-                    recs.push((IndexRec { hash: b.hash(), client_version: 270000, height: h, status: if h == 0 { VALID_SCRIPTS | HAVE_DATA } else { ACTIVE }, ntx: b.txs.len() as u64, file: 0, data_pos: pos, undo_pos: 8 + h, header: b.header.ser() }, true));
+                    recs.push((IndexRec { hash: b.hash(), client_version: 270000, height: h, status: if h == 0 { VALID_SCRIPTS | HAVE_DATA } else { ACTIVE | if h % 2 == 1 { refmodel::world::OPT_WITNESS } else { 0x100 } }, ntx: b.txs.len() as u64, file: 0, data_pos: pos, undo_pos: 8 + h, header: b.header.ser() }, true));
                 }
             }
             match c.form {
@@ -256,6 +267,9 @@ pub fn run() -> Report {
                     }
                     world.index_ops.push(IndexOp::Compact);
                 }
+            }
+            for (r, variant) in &twins {
+                world.add_key_twin(r, *variant);
             }
             let mut spec = RunSpec::new("bitcoin", c.cb).range(None, c.end);
             if c.hash_seed != 1 {
@@ -331,7 +345,7 @@ pub fn run() -> Report {
             }
             if let Some((sig, detail)) = bad.into_iter().next() {
                 // failure signature: which kind of record displaced the active one
-                let culprit = c.extras.iter().filter(|x| matches!(x.kind, Kind::StaleData | Kind::FailedData | Kind::ReorgedBranch | Kind::InvalidatedBranch | Kind::UnconnectedAbove)).map(|x| format!("{:?}@occupied-height:{}", x.kind, if x.later { "key-sorts-later" } else { "key-sorts-earlier" })).collect::<Vec<_>>().join("+");
+                let culprit = c.extras.iter().filter(|x| matches!(x.kind, Kind::StaleData | Kind::FailedData | Kind::ReorgedBranch | Kind::InvalidatedBranch | Kind::UnconnectedAbove | Kind::KeyTwin)).map(|x| format!("{:?}@occupied-height:{}", x.kind, if x.later { "key-sorts-later" } else { "key-sorts-earlier" })).collect::<Vec<_>>().join("+");
                 let sig = if culprit.is_empty() { sig } else { format!("{}[{}]", sig.split('-').next().unwrap_or(""), culprit) };
                 acc.disagree(&sig, format!("{:?}: {}", c, detail), replay_case(&world, &spec, expected_brief("output == model of the active chain", s, e), &r, &wk.dir));
             }
